@@ -533,7 +533,7 @@ func slotEdgeBounded(p *Prog, site ssa.CallInstruction) (bool, string) {
 
 func init() {
 	register(&Rule{
-		ID: "C07.R8", Props: []string{"C07", "C11"}, Min: 5,
+		ID: "C07.R8", Props: []string{"C07", "C11"}, Min: 4,
 		Doc: "a circular layout chain is reported when a file repeats, not after the maximum number of rounds: every round embeds the previous output as `content` (possibly more than once), so the work of a cycle that is only cut off by the depth limit grows geometrically. The chain loop keeps a set of the files it has rendered: a map created before the loop, looked up with the name of the file about to be loaded in a guard inside the loop, before the render call, whose hit edge returns an error, and updated with that name in every round",
 		Run: func(p *Prog, c *Ctx) {
 			fn := p.MustFn("(*vuego.template).layout")
@@ -657,13 +657,37 @@ func init() {
 					continue
 				}
 				good := true
+				// the value an edge brings: a constant, possibly merged from several assignments of the same constant
+				var constOf func(v ssa.Value, d int) (bool, bool)
+				constOf = func(v ssa.Value, d int) (bool, bool) {
+					switch x := v.(type) {
+					case *ssa.Const:
+						if x.Value != nil && x.Value.Kind() == constant.Bool {
+							return constant.BoolVal(x.Value), true
+						}
+					case *ssa.Phi:
+						if d > 4 || x == ph {
+							return false, false
+						}
+						res, have := false, false
+						for _, e := range x.Edges {
+							r, ok := constOf(e, d+1)
+							if !ok || (have && r != res) {
+								return false, false
+							}
+							res, have = r, true
+						}
+						return res, have
+					}
+					return false, false
+				}
 				for i, e := range ph.Edges {
-					k, isConst := e.(*ssa.Const)
-					if !isConst || k.Value == nil {
+					val, isConst := constOf(e, 0)
+					if !isConst {
 						good = false
 						break
 					}
-					if constant.BoolVal(k.Value) != !loop[h.Preds[i]] {
+					if val != !loop[h.Preds[i]] {
 						good = false
 					}
 				}
@@ -747,8 +771,14 @@ func init() {
 					return
 				}
 				at = mu
-				onlyFirst := enteredOnlyUnder(mu.Block(), func(cond ssa.Value, want bool) bool { r, k := eval(cond, true, 0); return k && r == want && func() bool { r2, k2 := eval(cond, false, 0); return k2 && r2 != want }() })
-				onlyLater := enteredOnlyUnder(mu.Block(), func(cond ssa.Value, want bool) bool { r, k := eval(cond, false, 0); return k && r == want && func() bool { r2, k2 := eval(cond, true, 0); return k2 && r2 != want }() })
+				onlyFirst := enteredOnlyUnder(mu.Block(), func(cond ssa.Value, want bool) bool {
+					r, k := eval(cond, true, 0)
+					return k && r == want && func() bool { r2, k2 := eval(cond, false, 0); return k2 && r2 != want }()
+				})
+				onlyLater := enteredOnlyUnder(mu.Block(), func(cond ssa.Value, want bool) bool {
+					r, k := eval(cond, false, 0)
+					return k && r == want && func() bool { r2, k2 := eval(cond, true, 0); return k2 && r2 != want }()
+				})
 				if !onlyFirst {
 					switch val, known := eval(mu.Value, false, 0); {
 					case known && val:
@@ -1518,6 +1548,28 @@ func init() {
 						}
 					}
 				}
+				// the test must lie on every feasible way to the handler, not just on some: a short-circuit
+				// (`tag != "slot" && HasAttr(v-for)`) lets an element through without asking
+				if facts, ok := pathFacts(site.Block()); ok && noFor {
+					onAll := false
+					for _, f := range facts {
+						if cl := isCallNamed(f.Cond, "helpers.HasAttr"); cl != nil && !f.Want {
+							if k, ok := constString(cl.Call.Args[1]); ok && k == "v-for" {
+								onAll = true
+							}
+						}
+						if b := eqOnEdge(f.Cond, f.Want); b != nil {
+							if cl := isCallNamed(b.X, "helpers.GetAttr"); cl != nil {
+								if k, ok := constString(cl.Call.Args[1]); ok && k == "v-for" {
+									if s, ok := constString(b.Y); ok && s == "" {
+										onAll = true
+									}
+								}
+							}
+						}
+					}
+					noFor = onAll
+				}
 				c.check(noFor, fmt.Sprintf("evaluate: %s only without v-for#%d", strings.TrimPrefix(name, "(*vuego.Vue)."), n), p.instrPos(site), "reached only when the element has no v-for", "this handler is reached for an element that still carries v-for: the loop is never run for it (a `<slot v-for>` is filled exactly once, without its loop variable; a `v-for` + `v-if` element is decided once instead of per item)")
 			}
 		},
@@ -2037,49 +2089,62 @@ func init() {
 		Run: func(p *Prog, c *Ctx) {
 			fn := p.MustFn("(*vuego.Stack).Lookup")
 			n := 0
-			eachInstr(fn, func(in ssa.Instruction) {
-				lk, ok := in.(*ssa.Lookup)
-				if !ok || !lk.CommaOk || loopHeaderOf(lk.Block()) == nil {
-					return
-				}
-				var val, present ssa.Value
-				for _, u := range *lk.Referrers() {
-					if ex, ok := u.(*ssa.Extract); ok {
-						if ex.Index == 0 {
-							val = ex
-						} else {
-							present = ex
-						}
+			// the scan is a loop of Lookup, or the body closure of a range-over-func loop over the scope list
+			scanFns := []*ssa.Function{fn}
+			isBody := map[*ssa.Function]bool{}
+			for _, rf := range rangeFuncs(fn) {
+				scanFns = append(scanFns, rf.Body)
+				isBody[rf.Body] = true
+			}
+			for _, fn := range scanFns {
+				fn := fn
+				eachInstr(fn, func(in ssa.Instruction) {
+					lk, ok := in.(*ssa.Lookup)
+					if !ok || !lk.CommaOk || (loopHeaderOf(lk.Block()) == nil && !isBody[fn]) {
+						return
 					}
-				}
-				n++
-				c.check(present != nil, fmt.Sprintf("Lookup: scope lookup#%d uses the presence flag", n), p.instrPos(lk), "comma-ok lookup", "the scope lookup ignores whether the key is present")
-				// every branch in the loop that depends on this lookup must depend on the presence flag only
-				loop := loopBlocks(loopHeaderOf(lk.Block()))
-				for _, b := range fn.Blocks {
-					if !loop[b] {
-						continue
-					}
-					ifi, ok := b.Instrs[len(b.Instrs)-1].(*ssa.If)
-					if !ok {
-						continue
-					}
-					usesVal := false
-					for _, l := range condLeaves(ifi.Cond) {
-						if val != nil && (l == val || sameValue(l, val)) {
-							usesVal = true
-						}
-						// through a local the value was stored into
-						for _, o := range p.origins(l, OriginOpts{}) {
-							if val != nil && o == val {
-								usesVal = true
+					var val, present ssa.Value
+					for _, u := range *lk.Referrers() {
+						if ex, ok := u.(*ssa.Extract); ok {
+							if ex.Index == 0 {
+								val = ex
+							} else {
+								present = ex
 							}
 						}
 					}
 					n++
-					c.check(!usesVal, fmt.Sprintf("Lookup: branch at %s decided by presence only", p.instrPos(ifi)), p.instrPos(ifi), "does not test the value found", "whether the scan stops at this scope depends on the value bound there, not only on the name being bound: a name bound to nil (or another rejected value) in an inner scope no longer shadows outer bindings — Lookup, Resolve and Get* return the outer value while EnvMap reports the inner nil")
-				}
-			})
+					c.check(present != nil, fmt.Sprintf("Lookup: scope lookup#%d uses the presence flag", n), p.instrPos(lk), "comma-ok lookup", "the scope lookup ignores whether the key is present")
+					// every branch in the loop that depends on this lookup must depend on the presence flag only
+					loop := map[*ssa.BasicBlock]bool{}
+					if h := loopHeaderOf(lk.Block()); h != nil {
+						loop = loopBlocks(h)
+					}
+					for _, b := range fn.Blocks {
+						if !loop[b] && !isBody[fn] {
+							continue
+						}
+						ifi, ok := b.Instrs[len(b.Instrs)-1].(*ssa.If)
+						if !ok {
+							continue
+						}
+						usesVal := false
+						for _, l := range condLeaves(ifi.Cond) {
+							if val != nil && (l == val || sameValue(l, val)) {
+								usesVal = true
+							}
+							// through a local the value was stored into
+							for _, o := range p.origins(l, OriginOpts{}) {
+								if val != nil && o == val {
+									usesVal = true
+								}
+							}
+						}
+						n++
+						c.check(!usesVal, fmt.Sprintf("Lookup: branch at %s decided by presence only", p.instrPos(ifi)), p.instrPos(ifi), "does not test the value found", "whether the scan stops at this scope depends on the value bound there, not only on the name being bound: a name bound to nil (or another rejected value) in an inner scope no longer shadows outer bindings — Lookup, Resolve and Get* return the outer value while EnvMap reports the inner nil")
+					}
+				})
+			}
 			c.check(n > 0, "Lookup: scans the scopes", p.pos(fn.Pos()), "scope lookup in a loop", "Lookup has no scope scan")
 		},
 	})
@@ -2514,9 +2579,37 @@ func lenImplies(same func(ssa.Value) bool, k int64, depth int) func(cnd ssa.Valu
 		cl := isCallNamed(v, "builtin.len")
 		return cl != nil && same(cl.Call.Args[0])
 	}
+	// lenPlus: v is len(x) + off for a constant off (`last := len(x) - 1`)
+	lenPlus := func(v ssa.Value) (int64, bool) {
+		if b, ok := v.(*ssa.BinOp); ok && (b.Op == token.SUB || b.Op == token.ADD) && lenOf(b.X) {
+			if c, ok := constInt(b.Y); ok {
+				if b.Op == token.SUB {
+					return -c, true
+				}
+				return c, true
+			}
+		}
+		return 0, false
+	}
 	var implies func(cnd ssa.Value, want bool) bool
 	implies = func(cnd ssa.Value, want bool) bool {
 		if op, x, y, ok := relationOnEdge(cnd, want); ok {
+			if off, isLenPlus := lenPlus(x); isLenPlus {
+				// len(x)+off op m  ⇔  len(x) op m-off
+				if m, ok := constInt(y); ok {
+					m -= off
+					switch op {
+					case token.GTR:
+						return m >= k-1
+					case token.GEQ:
+						return m >= k
+					case token.EQL:
+						return m >= k
+					case token.NEQ:
+						return m == 0 && k == 1
+					}
+				}
+			}
 			if lenOf(x) {
 				if m, ok := constInt(y); ok {
 					switch op {
